@@ -31,10 +31,10 @@ PARTIAL = {
 }
 
 PARTIAL["C04"] = "proved: AESxCBC.Encrypt's output is iv || CBC(pkcs7(m)) with a 16-byte IV (C14) and CJJ14.PiBas stores only PRF outputs as labels and Encrypt outputs as values (Repr); bounded stand-in only: substring absence and ciphertext-block freshness over all nine schemes"
-PARTIAL["C10"] = "bounded stand-in only so far: message histories against the 3-state reference model on the real connection handler (in-memory websocket double); handler contracts over a ghost disk are not yet in place"
-PARTIAL["C11"] = "bounded stand-in only so far: client operation histories against the 5-flag reference model with a live loopback server; contracts for the flag helpers and handlers are not yet in place"
-PARTIAL["C13"] = "bounded stand-in only so far: every file-system mutation of the seven persisting steps, kill before/after, restart, finish the workflow (in-process kill simulation); effect-prefix obligations are not yet in place"
-PARTIAL["C09"] = "bounded stand-in only: the documented workflow over loopback websockets for all nine schemes with client re-creation and server restarts; the composition lemma is not mechanised"
+PARTIAL["C10"] = "proved for all inputs: Service.handle_upload_config / handle_upload_encrypted_database / handle_search_token / close_service against a ghost disk and message trace (exact guards, effects, frame, invariant mem.state == disk.state, refused requests change nothing and reply ok=False); trusted: FileManager functions (D1 model), lazy loaders, Service.__init__; bounded stand-in: message histories against the 3-state model on the real connection handler"
+PARTIAL["C11"] = "proved for all inputs: the ten ClientServiceState flag helpers (set/clear/test exactly one bit) and the server-state resynchronisation (touches only the two upload flags); bounded stand-in: client operation histories against the 5-flag reference model with a live loopback server, key write-once, rejected configurations"
+PARTIAL["C13"] = "proved for all inputs: the server handlers keep mem.state == recorded state and write config before the state record (contracts over the ghost disk); the client resynchronisation recovers both upload flags from the init echo; bounded stand-in: every file-system mutation of the seven persisting steps, kill before/after, restart, finish the workflow (in-process kill simulation)"
+PARTIAL["C09"] = "proved for all inputs: server handlers store exactly the received bytes and report/guard by the recorded state; client resynchronisation; bounded stand-in: the documented workflow over loopback websockets for all nine schemes with client re-creation and server restarts; the end-to-end composition lemma is not mechanised"
 PARTIAL["C19"] = "bounded stand-in only so far (seeded operation histories against a list model); contracts for the index -> (file, offset) arithmetic are not yet in place"
 PARTIAL["C20"] = "bounded stand-in only so far (seeded operation histories against a dict model)"
 
@@ -57,13 +57,13 @@ PROPS = {
                 partial=PARTIAL["C19"], runtime_checks=[["persist_bounded", "rt_c19"]]),
     "C20": dict(modules=["persist_bounded"], assumptions=A_ENGINE + ["P1: pickle round trip", "D3: a dbm handle behaves like dict[bytes, bytes] within one session"], bounded=[],
                 partial=PARTIAL["C20"], runtime_checks=[["persist_bounded", "rt_c20"]]),
-    "C10": dict(modules=["frontend_bounded"], assumptions=A_ENGINE + ["T2: asyncio runs the code between two awaits atomically", "D1: pathlib/open/json/pickle file operations as documented"],
+    "C10": dict(modules=["frontend", "frontend_bounded"], assumptions=A_ENGINE + ["T2: asyncio runs the code between two awaits atomically", "D1: pathlib/open/json/pickle file operations as documented"],
                 bounded=[], partial=PARTIAL["C10"], runtime_checks=[["frontend_bounded", "rt_c10"]]),
-    "C11": dict(modules=["frontend_bounded"], assumptions=A_ENGINE + ["T1: the websocket delivers messages intact, once, in order", "D1: file operations as documented"],
+    "C11": dict(modules=["frontend", "frontend_bounded"], assumptions=A_ENGINE + ["T1: the websocket delivers messages intact, once, in order", "D1: file operations as documented"],
                 bounded=[], partial=PARTIAL["C11"], runtime_checks=[["frontend_bounded", "rt_c11"]]),
-    "C13": dict(modules=["frontend_bounded"], assumptions=A_ENGINE + ["D1: mkdir / open-for-write / write / rename / unlink are atomic; a crash happens only between two of them"],
+    "C13": dict(modules=["frontend", "frontend_bounded"], assumptions=A_ENGINE + ["D1: mkdir / open-for-write / write / rename / unlink are atomic; a crash happens only between two of them"],
                 bounded=[], partial=PARTIAL["C13"], runtime_checks=[["frontend_bounded", "rt_c13"]]),
-    "C09": dict(modules=["frontend_bounded"], assumptions=A_ENGINE + ["T1-T3: websocket transport, asyncio scheduling and pickle delivery are exercised, not verified"],
+    "C09": dict(modules=["frontend", "frontend_bounded"], assumptions=A_ENGINE + ["T1-T3: websocket transport, asyncio scheduling and pickle delivery are exercised, not verified"],
                 bounded=[], partial=PARTIAL["C09"], runtime_checks=[["frontend_bounded", "rt_c09"]]),
     "C14": dict(modules=["crypto"], assumptions=A_ENGINE + [
         "X1: cryptography's PKCS7 padder/unpadder: update()+finalize() == pkcs7(m) / unpad7(d), invalid padding raises ValueError",
